@@ -469,6 +469,14 @@ def bcs_cases(tier, seed):
     small = [6, 9, 8, 14, 12, 10]  # x^y=1, x^y=0, x&y, x|y, x, y  (n = 2 truth tables, bit index = 2x + y)
     for trip in itertools.product(small, repeat=3):
         yield {"n": 2, "tables": list(trip), "reps": 1}
+    for lay in ("F", "view"):
+        for t1 in _nonconstant(2):
+            yield {"n": 2, "tables": [t1], "reps": 1, "layout": lay}
+            for t2 in _nonconstant(2):
+                if (t1 + 5 * t2) % 3 == 0:
+                    yield {"n": 2, "tables": [t1, t2], "reps": 1, "layout": lay}
+        for t in _tables3()[:12]:
+            yield {"n": 3, "tables": [t, _tables3()[0]], "reps": 1, "layout": lay}
     if tier == "thorough":
         t3 = _tables3()
         for t in t3:
@@ -494,6 +502,13 @@ def bcs_check(case):
 
     n, tables, reps = case["n"], case["tables"], case["reps"]
     cons = [constraint_array(t, n) for t in tables]
+    # memory layout of the caller's truth tables: row-major, column-major copy, or a transposed view of the transposed table (added after
+    # seeded change C07-10, which read the tables in memory order)
+    lay = case.get("layout", "C")
+    if lay == "F":
+        cons = [np.asfortranarray(c) for c in cons]
+    elif lay == "view":
+        cons = [np.ascontiguousarray(np.transpose(c)).transpose() for c in cons]
     before = [c.copy() for c in cons]
     game, exc = call(NonlocalGame.from_bcs_game, cons, reps)
     if exc is not None:
